@@ -20,6 +20,7 @@ struct Scenario {
   std::function<void()> setup;     // child, main thread, before the client threads (unscheduled)
   std::function<void(int)> body;   // client thread t (scheduled)
   std::function<void()> finish;    // child, main thread, after all client threads exited (unscheduled)
+  std::vector<int> after;          // after[t] = k: thread t starts only when thread k has exited (-1: at once)
 };
 
 // Event log: uniform records {"e","t","op","a","b","r","v"} (ndjson), exact global order.
@@ -34,6 +35,7 @@ bool in_child();           // true inside an execution
 uint32_t block_of(const void* p); // allocation sequence number of the heap block containing p (0 = not heap)
 void track_thread();       // must be called first thing in body (done by the runtime wrapper)
 bool weak_mode();
+void dump_alloc_sites();   // emits one "ev" record per distinct caller of operator new: op = "allocsite:<pc>", a = count
 
 // Parses the standard command line and explores.  `make(prog)` builds the scenario for a program
 // string.  Returns the process exit code (0 ok, 2 infrastructure failure). Never decides a property:
